@@ -1924,4 +1924,58 @@ theorem sidebarOk_spec (e t : Int) : sidebarOk e t = true ↔ 1 ≤ e ∧ 0 ≤ 
   simp only [sidebarOk, Bool.and_eq_true, Bool.not_eq_true', decide_eq_false_iff_not]
   omega
 
+/-! ## Round 3b: line-boundary characters, clustered short flags, `[DEFAULT]` -/
+
+/-- only `\n` separates the items of a one-item-per-line value: an item with FF, VT, FS, GS, RS, NEL, U+2028,
+U+2029 or CR in its middle stays one item (instance of `ini_multiline_list`, which excludes nothing but `\n`) -/
+example :
+    iniValue true (joinLines ['a', Char.ofNat 0x0c, 'b'] [['c', Char.ofNat 0x2028, 'd'], ['e', '\r', 'f'],
+        ['g', Char.ofNat 0x0b, Char.ofNat 0x1c, Char.ofNat 0x1d, Char.ofNat 0x1e, Char.ofNat 0x85, Char.ofNat 0x2029, 'h']]) =
+      .list [['a', Char.ofNat 0x0c, 'b'], ['c', Char.ofNat 0x2028, 'd'], ['e', '\r', 'f'],
+        ['g', Char.ofNat 0x0b, Char.ofNat 0x1c, Char.ofNat 0x1d, Char.ofNat 0x1e, Char.ofNat 0x85, Char.ofNat 0x2029, 'h']] := by
+  decide +kernel
+
+/-- configargparse looks for EXACT option strings: a cluster of short flags (`-vv`, `-vq`) or an abbreviation does
+not count as "the option is on the command line", so the file's count is added to it — `count_cli_replaces_file`
+is about exact option strings (`-v -v`), and that is all the code guarantees (open findings
+`cli-clustered-short-count:file-count-added`, `cli-abbreviation:file-not-overridden`) -/
+theorem cluster_not_already_on :
+    alreadyOn [parseArg "-vv".toList] ["--verbose".toList, "-v".toList] = false ∧
+    alreadyOn [parseArg "-vq".toList] ["--verbose".toList, "-v".toList] = false ∧
+    alreadyOn [parseArg "--verb".toList] ["--verbose".toList, "-v".toList] = false ∧
+    alreadyOn [parseArg "-v".toList, parseArg "-v".toList] ["--verbose".toList, "-v".toList] = true := by
+  decide +kernel
+
+/-- with `verbose = 1` in a file: `-v -v` gives 2 occurrences (the file's one is dropped), `-vv` leaves the file's
+`-v` in the vector next to the cluster -/
+example :
+    (match mergeFile exTable [parseArg "-v".toList, parseArg "-v".toList] [("verbose".toList, .str "1".toList)] with
+     | .ok a => a.map Arg.render | .error _ => []) = ["-v".toList, "-v".toList] ∧
+    (match mergeFile exTable [parseArg "-vv".toList] [("verbose".toList, .str "1".toList)] with
+     | .ok a => a.map Arg.render | .error _ => []) = ["-v".toList, "-vv".toList] := by decide +kernel
+
+/-- `[DEFAULT]` entries reach every section: a key set only there is applied to pydoctor, one the section sets
+itself keeps the section's value (INI semantics of configparser; pinned, not a defect) -/
+theorem default_section_leaks :
+    iniItems true ["tool:pydoctor".toList]
+      [("DEFAULT".toList, [("project-name".toList, "leaked".toList), ("verbose".toList, "3".toList)]),
+       ("tool:pydoctor".toList, [("verbose".toList, "1".toList)])] =
+    some (some [("verbose".toList, .str "1".toList), ("project-name".toList, .str "leaked".toList)]) := by
+  decide +kernel
+
+theorem sectionItems_spec (defaults own : List (Str × Str)) :
+    (∀ kv ∈ own, kv ∈ sectionItems defaults own) ∧
+    (∀ d ∈ defaults, (∀ o ∈ own, o.1 ≠ d.1) → d ∈ sectionItems defaults own) ∧
+    (∀ d ∈ defaults, (∃ o ∈ own, o.1 = d.1) → d ∈ sectionItems defaults own → d ∈ own) := by
+  refine ⟨?_, ?_, ?_⟩
+  · intro kv h; simp [sectionItems, h]
+  · intro d hd hno
+    simp only [sectionItems, List.mem_append, List.mem_filter, Bool.not_eq_true', List.any_eq_false, beq_iff_eq]
+    exact Or.inr ⟨hd, fun o ho => hno o ho⟩
+  · intro d _ ⟨o, ho, he⟩ hm
+    simp only [sectionItems, List.mem_append, List.mem_filter, Bool.not_eq_true', List.any_eq_false, beq_iff_eq] at hm
+    rcases hm with h | ⟨_, h⟩
+    · exact h
+    · exact absurd he (h o ho)
+
 end Config
